@@ -116,6 +116,12 @@ func (j *jsonParser) Pull() (node.Node, bool, error) {
 
 	tok, err := j.jsonReader.Token()
 
+	// The token reader reports io.EOF wherever the input stops.  Inside an
+	// object or array that is a truncated document, not the end of one.
+	if err == io.EOF && len(j.stateStack) > 0 {
+		return nil, false, io.ErrUnexpectedEOF
+	}
+
 	if err != nil {
 		return nil, false, err
 	}
